@@ -50,8 +50,14 @@ template <> struct Buf<bool> { std::unique_ptr<bool[]> b; size_t n = 0; std::vec
 
 template <typename T> void fill(Buf<T> &b, const std::vector<Idx> &ix, long k, long variant) { b.v.clear(); for (auto &i : ix) b.v.push_back(Conv<T>::enc(stampOf(k, i), variant)); }
 template <> void fill<bool>(Buf<bool> &b, const std::vector<Idx> &ix, long k, long variant) { b.n = ix.size(); b.b.reset(new bool[std::max<size_t>(1, b.n)]); for (size_t q = 0; q < ix.size(); q++) b.b[q] = Conv<bool>::enc(stampOf(k, ix[q]), variant); }
-template <typename T> void alloc(Buf<T> &b, size_t n) { b.v.assign(n, T()); }
-template <> void alloc<bool>(Buf<bool> &b, size_t n) { b.n = n; b.b.reset(new bool[std::max<size_t>(1, n)]); for (size_t q = 0; q < n; q++) b.b[q] = false; }
+// read buffers are handed over DIRTY (a value no cell can hold): a read that leaves part of the caller's buffer untouched - e.g.
+// a never-written chunk the storage layer skips - must not pass for "reads as zero"
+template <typename T> struct Poison { static T v() { return static_cast<T>(113); } };
+template <> struct Poison<float> { static float v() { return 113.125f; } };
+template <> struct Poison<double> { static double v() { return 113.125; } };
+template <> struct Poison<std::string> { static std::string v() { return "never-read"; } };
+template <typename T> void alloc(Buf<T> &b, size_t n) { b.v.assign(n, Poison<T>::v()); }
+template <> void alloc<bool>(Buf<bool> &b, size_t n) { b.n = n; b.b.reset(new bool[std::max<size_t>(1, n)]); for (size_t q = 0; q < n; q++) b.b[q] = true; }
 template <typename T> T at(Buf<T> &b, size_t i) { return b.v[i]; }
 template <> bool at<bool>(Buf<bool> &b, size_t i) { return b.b[i]; }
 
